@@ -59,6 +59,18 @@ claim("C03", "exploration",
       TB + " Tolerances scaled to the magnitude of the running totals; near-ties of the epsilon-cut adopted.",
       "DESIGN.md 4 (C03)")
 
+claim("C08", "exploration",
+      "runtime monitoring: icontract postconditions walking the public tree after build/fill + independent builder and "
+      "point-wise router as reference model + recomputed distributions / KL / Kulldorff statistic",
+      "Over a thousand (12k thorough) generated point sets (continuous, lattice, duplicates, constant columns, adjacent "
+      "doubles, extreme magnitudes; 1-5 dims) x count_ubound x cutpoint bound, each followed by random fill sequences over "
+      "several ids with/without reset; after build and after every fill icontract postconditions check the structural "
+      "invariants (binary, axis cycling, no small node split, conservation per id, leaf order, totals) and every node's count "
+      "is compared with an independent point-by-point routing; leaf distributions, kl_distance and every row of "
+      "to_plotly_dataframe are recomputed.  Sampled, not exhaustive.",
+      TB + " Leaf rule taken from the class documentation and mirrored by the independent builder.",
+      "DESIGN.md 4 (C08)")
+
 NOT_YET = "check not built yet in this revision of /verif (planned: see DESIGN.md section 4); nothing is claimed for it"
 
 
